@@ -179,25 +179,12 @@ def run_cases_file(vfile, timeout):
     return rc, out, dt
 
 
-def correspondence(pid, run, tier, seed, outdir, boost=1):
-    """Run one harness scenario set and evaluate the model on it. Returns a dict."""
-    name = run['name']
-    cases = run.get(tier, run.get('quick', 50)) * boost
-    bin_ = run['bin']
-    exe = os.path.join(TARGET, 'debug', bin_ + ('-' + run['features'] if run.get('features') else ''))
-    cmd = [exe, run['mode'], '--seed', str(seed), '--cases', str(cases), '--out', outdir] + run.get('args', [])
-    if boost > 1:
-        cmd += ['--boost', str(boost)]
-    r = {'name': name, 'priority': run.get('priority', 5), 'cmd': ' '.join(cmd), 'cases': 0, 'agree': 0, 'disagree': [], 'monitor_fail': [], 'stats': {}, 'samples': [], 'errors': []}
-    rc, out, dt = sh(cmd, run.get('timeout', 600), env={'RUST_BACKTRACE': '0'})
-    r['harness_s'] = round(dt, 2)
-    if rc != 0:
-        r['errors'].append('harness exit %d: %s' % (rc, out[-800:]))
-        return r
+def evaluate_outdir(run, outdir, r):
+    """evaluate the model on every cases file of outdir (16 coqc in parallel) and classify each case into r"""
     metas = sorted(glob.glob(os.path.join(outdir, 'meta_%s*.json' % run.get('emit', run['mode']))))
     if not metas:
-        r['errors'].append('harness wrote no meta file: ' + out[-400:])
-        return r
+        r['errors'].append('harness wrote no meta file')
+        return
     import concurrent.futures as cf
     jobs = []
     with cf.ThreadPoolExecutor(max_workers=16) as ex:
@@ -244,7 +231,63 @@ def correspondence(pid, run, tier, seed, outdir, boost=1):
                 r['monitor_fail'].append(c)
             if len(r['samples']) < 3:
                 r['samples'].append({kk: vv for kk, vv in c.items() if not kk.startswith('_')})
-    r['coq_s'] = round(t_coq, 2)
+    r['coq_s'] = round(r.get('coq_s', 0) + t_coq, 2)
+
+
+def correspondence(pid, run, tier, seed, outdir, boost=1):
+    """Run one harness scenario set and evaluate the model on it. Returns a dict."""
+    name = run['name']
+    cases = run.get(tier, run.get('quick', 50)) * boost
+    bin_ = run['bin']
+    exe = os.path.join(TARGET, 'debug', bin_ + ('-' + run['features'] if run.get('features') else ''))
+    cmd = [exe, run['mode'], '--seed', str(seed), '--cases', str(cases), '--out', outdir] + run.get('args', [])
+    if boost > 1:
+        cmd += ['--boost', str(boost)]
+    r = {'name': name, 'priority': run.get('priority', 5), 'cmd': ' '.join(cmd), 'cases': 0, 'agree': 0, 'disagree': [], 'monitor_fail': [], 'stats': {}, 'samples': [], 'errors': []}
+    rc, out, dt = sh(cmd, run.get('timeout', 600), env={'RUST_BACKTRACE': '0'})
+    if rc == 124:
+        # a time-out may be machine load rather than the code under test: one retry of the SAME cases with three times the budget
+        # (a genuine hang times out again and is reported)
+        r['retried_after_timeout'] = True
+        rc, out, dt2 = sh(cmd, 3 * run.get('timeout', 600), env={'RUST_BACKTRACE': '0'})
+        dt += dt2
+    r['harness_s'] = round(dt, 2)
+    if rc != 0:
+        r['errors'].append('harness exit %d: %s' % (rc, out[-800:]))
+        return r
+    evaluate_outdir(run, outdir, r)
+    # Harnesses that run on REAL time and sockets (run['realtime']): a failing case is run again, alone, up to twice; it counts only if it
+    # fails every time. The scenarios are deterministic functions of (seed, case), so a failure caused by the code under test repeats,
+    # one caused by scheduling delays on a loaded machine does not. Cases carrying a known finding are not re-run.
+    if run.get('realtime'):
+        known = load_known().get('findings', [])
+        failing = {}
+        for c in r['disagree'] + r['monitor_fail']:
+            if not any(finding_matches(f, pid, c) for f in known):
+                failing[c['case']] = c
+        recovered = []
+        for k in sorted(failing)[:6]:
+            ok_once = False
+            for attempt in (1, 2):
+                od = os.path.join(outdir, 'rerun_%d_%d' % (k, attempt))
+                os.makedirs(od, exist_ok=True)
+                c2 = [exe, run['mode'], '--seed', str(seed), '--cases', str(cases), '--out', od, '--only', str(k)] + run.get('args', [])
+                rc2, _, _ = sh(c2, run.get('timeout', 600), env={'RUST_BACKTRACE': '0'})
+                if rc2 != 0:
+                    continue
+                r2 = {'cases': 0, 'agree': 0, 'disagree': [], 'monitor_fail': [], 'stats': {}, 'samples': [], 'errors': []}
+                evaluate_outdir(run, od, r2)
+                if r2['cases'] == 1 and not r2['errors'] and not r2['disagree'] and not r2['monitor_fail']:
+                    ok_once = True
+                    break
+            if ok_once:
+                recovered.append(k)
+        if recovered:
+            r['not_reproduced_on_rerun'] = recovered
+            n_dis = len(r['disagree'])
+            r['disagree'] = [c for c in r['disagree'] if c['case'] not in recovered]
+            r['agree'] += n_dis - len(r['disagree'])
+            r['monitor_fail'] = [c for c in r['monitor_fail'] if c['case'] not in recovered]
     inc = r.get('inconclusive', 0)
     if inc and inc * 4 > (r['cases'] + inc):
         r['errors'].append('%d of %d cases were inconclusive (time-outs): the correspondence could not be evaluated' % (inc, r['cases'] + inc))
